@@ -1107,3 +1107,142 @@ include_msg!(msg1301, "msg1301");
 include_msg!(msg1302, "msg1302");
 include_msg!(msg1303, "msg1303");
 include_msg!(msg1304, "msg1304");
+
+/// Verification hooks (only with `--cfg rtcm_rs_verif`): re-exports of the per-message
+/// codec modules and one-line forwarders to the private MSM mask helpers.
+#[cfg(all(rtcm_rs_verif, feature = "all_msgs"))]
+pub mod verif_codec {
+    use crate::tinyvec::ArrayVec;
+    pub use super::msm_mappings::{bds, gal, glo, gps, navic, qzss, sbas};
+    pub use super::msm123_sat::*;
+    pub use super::msm46_sat::*;
+    pub use super::msm57_sat::*;
+    pub use super::msm57_glo_sat::*;
+    pub use super::msg1001::*;
+    pub use super::msg1002::*;
+    pub use super::msg1003::*;
+    pub use super::msg1004::*;
+    pub use super::msg1005::*;
+    pub use super::msg1006::*;
+    pub use super::msg1007::*;
+    pub use super::msg1008::*;
+    pub use super::msg1009::*;
+    pub use super::msg1010::*;
+    pub use super::msg1011::*;
+    pub use super::msg1012::*;
+    pub use super::msg1013::*;
+    pub use super::msg1014::*;
+    pub use super::msg1015::*;
+    pub use super::msg1016::*;
+    pub use super::msg1017::*;
+    pub use super::msg1019::*;
+    pub use super::msg1020::*;
+    pub use super::msg1021::*;
+    pub use super::msg1022::*;
+    pub use super::msg1023::*;
+    pub use super::msg1024::*;
+    pub use super::msg1025::*;
+    pub use super::msg1026::*;
+    pub use super::msg1027::*;
+    pub use super::msg1029::*;
+    pub use super::msg1030::*;
+    pub use super::msg1031::*;
+    pub use super::msg1032::*;
+    pub use super::msg1033::*;
+    pub use super::msg1034::*;
+    pub use super::msg1035::*;
+    pub use super::msg1037::*;
+    pub use super::msg1038::*;
+    pub use super::msg1039::*;
+    pub use super::msg1041::*;
+    pub use super::msg1042::*;
+    pub use super::msg1044::*;
+    pub use super::msg1045::*;
+    pub use super::msg1046::*;
+    pub use super::msg1057::*;
+    pub use super::msg1058::*;
+    pub use super::msg1059::*;
+    pub use super::msg1060::*;
+    pub use super::msg1061::*;
+    pub use super::msg1062::*;
+    pub use super::msg1063::*;
+    pub use super::msg1064::*;
+    pub use super::msg1065::*;
+    pub use super::msg1066::*;
+    pub use super::msg1067::*;
+    pub use super::msg1068::*;
+    pub use super::msg1071::*;
+    pub use super::msg1072::*;
+    pub use super::msg1073::*;
+    pub use super::msg1074::*;
+    pub use super::msg1075::*;
+    pub use super::msg1076::*;
+    pub use super::msg1077::*;
+    pub use super::msg1081::*;
+    pub use super::msg1082::*;
+    pub use super::msg1083::*;
+    pub use super::msg1084::*;
+    pub use super::msg1085::*;
+    pub use super::msg1086::*;
+    pub use super::msg1087::*;
+    pub use super::msg1091::*;
+    pub use super::msg1092::*;
+    pub use super::msg1093::*;
+    pub use super::msg1094::*;
+    pub use super::msg1095::*;
+    pub use super::msg1096::*;
+    pub use super::msg1097::*;
+    pub use super::msg1101::*;
+    pub use super::msg1102::*;
+    pub use super::msg1103::*;
+    pub use super::msg1104::*;
+    pub use super::msg1105::*;
+    pub use super::msg1106::*;
+    pub use super::msg1107::*;
+    pub use super::msg1111::*;
+    pub use super::msg1112::*;
+    pub use super::msg1113::*;
+    pub use super::msg1114::*;
+    pub use super::msg1115::*;
+    pub use super::msg1116::*;
+    pub use super::msg1117::*;
+    pub use super::msg1121::*;
+    pub use super::msg1122::*;
+    pub use super::msg1123::*;
+    pub use super::msg1124::*;
+    pub use super::msg1125::*;
+    pub use super::msg1126::*;
+    pub use super::msg1127::*;
+    pub use super::msg1131::*;
+    pub use super::msg1132::*;
+    pub use super::msg1133::*;
+    pub use super::msg1134::*;
+    pub use super::msg1135::*;
+    pub use super::msg1136::*;
+    pub use super::msg1137::*;
+    pub use super::msg1230::*;
+    pub use super::msg1300::*;
+    pub use super::msg1301::*;
+    pub use super::msg1302::*;
+    pub use super::msg1303::*;
+    pub use super::msg1304::*;
+    pub fn mask_len_u32(mask: u32) -> usize {
+        super::mask_len_u32(mask)
+    }
+    pub fn mask_len_u64(mask: u64) -> usize {
+        super::mask_len_u64(mask)
+    }
+    pub fn mask_to_id_vec_u32(mask: u32) -> ArrayVec<[u8; 32]> {
+        super::mask_to_id_vec_u32(mask)
+    }
+    pub fn mask_to_id_vec_u64(mask: u64) -> ArrayVec<[u8; 64]> {
+        super::mask_to_id_vec_u64(mask)
+    }
+    pub fn cell_mask_id_vec(
+        sat_mask: u64,
+        sig_mask: u32,
+        cell_mask: u64,
+    ) -> Option<(ArrayVec<[u8; 64]>, ArrayVec<[(u8, u8); 64]>)> {
+        super::cell_mask_id_vec(sat_mask, sig_mask, cell_mask)
+    }
+}
